@@ -247,7 +247,8 @@ pub fn gen_amount(src: &mut Src, max_len: usize, decimals: usize) -> String {
     // mostly at most 15 significant digits (what an f64 holds exactly); 1 in 16 longer
     let long = src.chance(1, 16);
     let max_int = max_len.saturating_sub(1 + nd).clamp(1, 14);
-    let max_int = if long { max_int } else { max_int.min(15usize.saturating_sub(nd).max(1)) };
+    // (the library formats with the currency's full precision, so that is what has to fit)
+    let max_int = if long { max_int } else { max_int.min(15usize.saturating_sub(decimals.max(nd)).max(1)) };
     let nint = match src.below(6) {
         0 => 1,
         1 => max_int,
